@@ -1,4 +1,63 @@
 /-
+  C12, extension (Svgdx/Proofs/Contain.lean): what `handle_containment` IS, for every context and element.
+  All theorems are about the hand model `Elem.handleContainment c e` (Svgdx/Geom/Resolve.lean, unchanged),
+  for ALL `c`, `e`; hypotheses are decidable facts about `e`'s attributes and `c` (`allResolve`, `firstBad`,
+  `parsedMargin`, `NonnegMargin` are computable; each has an `example` on the context `C12x.Ex.ctx`).
+  Vocabulary: `areaOf c e isS r` = the box one listed reference contributes (bounding box for surround,
+  `inscribedBBox` for `e`'s shape for inside; `none` if it does not resolve), `areas` = those of the whole
+  list, `gather` = `unionAll` / `intersectAll`, `adjust isS t` = grown / shrunk by the parsed margin,
+  `finish e isS bbox` = positionFromBBox (if there is a box) on `e` STILL carrying the three attributes,
+  then the class, then the removal - exactly the model's order.
+
+  (a) CLOSED FORM
+   * `closed_form`: with exactly one of surround / inside = `list`: the error `refErr` of the FIRST listed
+     reference without a box; else the error of an unparsable margin; else
+     `.ok (finish e isS ((gather isS (areas …)).map (adjust isS margin)))`.
+   * `neither_unchanged`: no surround, no inside -> `.ok e` (unchanged - also a lone `margin`).
+   * `both_error`: both -> `.error invalidData` (= `C12.both_is_error`).
+   * `surround_closed_form` / `inside_closed_form`: every reference resolves, margin parses, union /
+     intersection = some box -> `.ok (((e.positionFromBBox (adjust … box) false/true).addClass
+     d-surround/d-inside).removeAttrs [surround, inside, margin])`; `surround_union_exists`: a non-empty
+     resolving list has a union.
+   * `no_box_no_geometry`: empty intersection (or empty list) -> NO error:
+     `.ok ((e.addClass class).removeAttrs [surround, inside, margin])`, nothing else touched.
+   * `unresolved_is_error` + `refErr_cases`: a listed reference that does not parse / names nothing / has
+     no box (or an erroring box) -> `.error parse` / `reference` / `missingBBox`; never a default box.
+   * `bad_margin_is_error`; `ok_shape`: every successful result is `e` or a `finish`.
+   * `other_shape_no_geometry`: a name other than rect / box / circle / ellipse gets no geometry at all.
+  (b) SURROUND, ELEMENT LEVEL (`g` = union grown by margin)
+   * `surround_rect`: x / y / width / height = `fstr` of g's corner and size; under `RoundTrips g`
+     (`strp (fstr v) = some v` for those four numbers) `bboxRaw` of the result = g EXACTLY, and `bbox` = g
+     if the element has no content box and no `transform`; with `NonnegMargin` every listed box is Within g.
+   * `surround_circle`: cx, cy = centre of g, r = ½·max(w,h)·SQRT_2; with `NonnegMargin` EVERY POINT of
+     every listed box (corners included) is within r·√(1+10⁻⁷) of the centre (uses
+     `C12.surround_circle_circumscribes`).
+   * `surround_ellipse`: cx, cy, rx = ½·w·SQRT_2, ry = ½·h·SQRT_2; for 0 < w, h every point of every listed
+     box satisfies the ellipse inequality up to 1+10⁻⁷ (uses `C12.surround_ellipse_circumscribes`).
+  (c) INSIDE, ELEMENT LEVEL (`g` = intersection of the inscribed areas shrunk by margin)
+   * `inside_rect`: attributes / box as for surround; with `NonnegMargin` g is Within the intersection and
+     Within every listed area (`intersectAll_within`, `shrink_within`).
+   * `inside_circle`: cx, cy = centre of g, r = ½·min(w,h); the square around the circle is Within g
+     (no sign condition) and, with `NonnegMargin`, Within every listed area.
+   * `inside_ellipse`: rx = ½·w, ry = ½·h: the ellipse's box IS g; Within every listed area.
+  (d) FRAME
+   * `frame`: for unique keys, a successful result has unique keys, the same name / content box / emptiness,
+     classes = old ones plus exactly d-surround / d-inside (unchanged if neither attribute), no `surround`,
+     no `inside`, a `margin` ONLY if neither was present (then the result is `e`), and every attribute
+     outside [surround, inside, margin] and outside `geomKeys e.name` ([x,y,width,height] / [cx,cy,r] /
+     [cx,cy,rx,ry] / []) keeps its value; `id_kept` as an instance; `finish_frame`, `finish_removed`.
+
+  NOT proved: `RoundTrips` is a hypothesis (true on the 3-decimal grid, see C09x); the circle / ellipse
+  statements are about the exact radii before `fstr` rounds them to 3 decimals; the `inside` statements take
+  the code's notion of inscribed area (`inscribedBBox`: rect in circle / ellipse; every other pair = the
+  bounding box, the TODO in element.rs), so a circle inside "#rect #circle" is Within the boxes, not shown
+  to be within the listed circle; nothing is said for negative margins beyond the closed form.
+  DEVIATION (property vs code, model = code; witness `C12x.Ex.lone`, confirmed with the svgdx binary):
+  `<rect xy="0" wh="10" margin="3"/>` keeps `margin="3"` in the output - the early return for "neither
+  attribute" skips `remove_attrs`, so "margin never appears in the output" holds only for elements that have
+  `surround` or `inside` (`frame` states exactly this).
+-/
+/-
   C12 / C08, extension (Svgdx/Proofs/BoxListGen.lean): the hand-written list-level box folds EQUAL, for all
   lists, the functions regenerated from the syn AST of /repo/src/position.rs on every run
   (Svgdx/Gen/BoxList.lean: `BoundingBox::union`, an iterator chain; `BoundingBox::intersection`, a `while`
@@ -18,8 +77,31 @@
    * `builder_eq_union`: over a list of boxes the builder gives `Elem.unionAll` = `BoundingBox::union`.
   Not regenerated: the callers (which boxes are collected, in transform.rs / loop_el.rs / element.rs).
 -/
+import Svgdx.Proofs.Contain
 import Svgdx.Proofs.BoxListGen
 
+#print axioms Svgdx.Props.C12x.closed_form
+#print axioms Svgdx.Props.C12x.neither_unchanged
+#print axioms Svgdx.Props.C12x.both_error
+#print axioms Svgdx.Props.C12x.surround_closed_form
+#print axioms Svgdx.Props.C12x.surround_union_exists
+#print axioms Svgdx.Props.C12x.inside_closed_form
+#print axioms Svgdx.Props.C12x.no_box_no_geometry
+#print axioms Svgdx.Props.C12x.unresolved_is_error
+#print axioms Svgdx.Props.C12x.refErr_cases
+#print axioms Svgdx.Props.C12x.bad_margin_is_error
+#print axioms Svgdx.Props.C12x.ok_shape
+#print axioms Svgdx.Props.C12x.other_shape_no_geometry
+#print axioms Svgdx.Props.C12x.surround_rect
+#print axioms Svgdx.Props.C12x.surround_circle
+#print axioms Svgdx.Props.C12x.surround_ellipse
+#print axioms Svgdx.Props.C12x.inside_rect
+#print axioms Svgdx.Props.C12x.inside_circle
+#print axioms Svgdx.Props.C12x.inside_ellipse
+#print axioms Svgdx.Props.C12x.finish_frame
+#print axioms Svgdx.Props.C12x.finish_removed
+#print axioms Svgdx.Props.C12x.frame
+#print axioms Svgdx.Props.C12x.id_kept
 #print axioms Svgdx.Props.C12g.unionAll_eq_gen
 #print axioms Svgdx.Props.C12g.while_loop_eq
 #print axioms Svgdx.Props.C12g.intersectAll_eq_gen
